@@ -626,7 +626,16 @@ func typeAtom(cp *ana.Prog, val string) ana.Atom {
 		}
 		for _, pr := range [][2]ssa.Value{{x, y}, {y, x}} {
 			if cp.Leaves(pr[0], ana.PVOpt{}).HasField("TransactionResponse.Type") {
-				if k, ok := pr[1].(*ssa.Const); ok && k.Value != nil && (val == "" || k.Value.ExactString() == val) {
+				kv := pr[1]
+				for i := 0; i < 3; i++ {
+					switch z := kv.(type) {
+					case *ssa.Convert:
+						kv = z.X
+					case *ssa.ChangeType:
+						kv = z.X
+					}
+				}
+				if k, ok := kv.(*ssa.Const); ok && k.Value != nil && (val == "" || k.Value.ExactString() == val) {
 					return op == token.EQL, true
 				}
 			}
